@@ -26,6 +26,7 @@ LEVEL = 'model_checking'
 def build(args):
     label, occ, kinds, n_pos = args[:4]
     model = args[4] if len(args) > 4 else 'flow'
+    gflow = args[5] if len(args) > 5 else 1.0
     dassh = common.import_dassh()
     # reference: same layout, every assembly without a pin bundle (always
     # with the flowing-gap model: the geometry does not depend on the model)
@@ -33,7 +34,8 @@ def build(args):
         dassh, occ, [(0, 0)] * len(occ), n_pos)
     ref = float(core0.gap_params['total area']) if core0 is not None else None
     cfg, ev, core = core_struct.core_events(dassh, occ, kinds, n_pos,
-                                            area_ref=ref, model=model)
+                                            area_ref=ref, model=model,
+                                            gap_flow=gflow)
     return {'label': label, 'cfg': cfg, 'ev': ev}
 
 
@@ -90,6 +92,14 @@ def layouts(rng, tier):
     # uniform meshes
     for k in kinds_pool:
         out.append((f'7:all:{k}', list(range(7)), [k] * 7, 7))
+    # very small and zero gap flows (the default bypass fraction is zero):
+    # still split in proportion to the areas
+    for gf in (1e-5, 3e-8, 0.0):
+        for occ in ([0, 1, 2, 4], list(range(7))):
+            kinds = [kinds_pool[(i + 1) % len(kinds_pool)] for i in occ]
+            for model in ('flow', 'no_flow'):
+                out.append((f'7:{"".join(map(str, occ))}:{model}:gf{gf}',
+                            occ, kinds, 7, model, gf))
     # the other gap models on a sample of layouts: the gap geometry is the
     # same whatever the heat-transfer model of the gap
     for model in ('no_flow', 'duct_average'):
